@@ -112,7 +112,12 @@ def run(tier="quick"):
         _results[key] = out
         # prune old witness crates
         root = os.path.join(facts.WORK, "witness")
-        ds = sorted((os.path.join(root, x) for x in os.listdir(root)), key=os.path.getmtime)
+        def _mt(d):
+            try:
+                return os.path.getmtime(d)
+            except OSError:
+                return 0.0
+        ds = sorted((os.path.join(root, x) for x in os.listdir(root)), key=_mt)
         for old in ds[:-4]:
             try:
                 recent = time.time() - os.path.getmtime(old) < 3 * 3600
